@@ -9,6 +9,12 @@ sys.path.insert(0, os.path.join(ROOT, "checklib"))
 from props import PROPS  # noqa: E402
 from manifest_text import TEXT, NOT_APPLICABLE, PENDING  # noqa: E402
 
+import subprocess
+# every commit in /repo whose subject starts with "verif hook:" (guarded, add-only instrumentation)
+HOOK_COMMITS = [l.split()[0] for l in subprocess.run(
+    ["git", "-C", "/repo", "log", "--reverse", "--format=%H %s", "--grep=^verif hook:"],
+    stdout=subprocess.PIPE, text=True).stdout.splitlines() if l.strip()]
+
 ids = [json.loads(l)["id"] for l in open(os.path.join(ROOT, "properties.jsonl"))]
 checks = []
 na = []
@@ -39,7 +45,7 @@ m = {
         "guard": "zbus_verif",
         "enable": "RUSTFLAGS='--cfg zbus_verif --check-cfg cfg(zbus_verif)' (set by ./check for every engine build)",
         "baseline_off_cmd": "cd /repo && cargo nextest run --workspace --no-fail-fast --test-threads 8 --offline || cargo test --workspace --no-fail-fast --offline",
-        "source_commits": [],
+        "source_commits": HOOK_COMMITS,
         "add_only": True,
     },
     "engines": [
